@@ -25,6 +25,12 @@ def cell_violates(kind, spec, col, x, eps):
         return True
     if kind == 'max_nulls':
         return x is None
+    # a constraint that cannot apply to a field of this type flags every record, null ones included (the reading
+    # adopted for "every record for a type failure": DESIGN section 7, C06)
+    if kind in ('min_length', 'max_length', 'rex') and t != 'string':
+        return True
+    if kind == 'sign' and t in ('string', 'date'):
+        return True
     if x is None:
         return None
     if kind in ('min', 'max'):
@@ -180,10 +186,7 @@ def run(ctx):
                 for k in C.ordered(case['cons'][nm]):
                     if dv.get(nm, {}).get(k) is False:
                         spec = case['cons'][nm][k]
-                        if k == 'sign' and col['type'] in ('string', 'date'):
-                            continue        # no column is produced for a sign failure on a non-numeric field
-                        if k in ('min_length', 'max_length', 'rex') and col['type'] != 'string':
-                            continue        # nor for a string-only constraint on a non-string field
+                        # (a constraint that cannot apply to a field of this type flags every record)
                         want_cols['%s_%s_ok' % (nm, SUFFIX.get(k, k))] = [cell_violates(k, spec, col, x, eps) for x in col['cells']]
             det = v.detected()
             nfail_want = [sum(1 for c in want_cols.values() if c[r] is True) for r in range(nrows)]
